@@ -1,6 +1,1791 @@
-//! C12 — not built yet.
-use crate::core::Ctx;
+//! C12 — gcd / gcd_ext, integer roots (sqrt, cbrt, nth_root and the *_rem forms), ilog,
+//! log2_bounds / log2_est and UBig::remove satisfy their defining (in)equalities on primitives
+//! and on UBig / IBig / FBig / RBig; only the documented panics occur.
+//!
+//! Oracles are definitions evaluated on the reference side (u128 checked arithmetic, num_bigint):
+//!   root:  r^n <= x < (r+1)^n, rem = x - r^n        gcd_ext: g = gcd_ref, s*a + t*b = g
+//!   ilog:  b^e <= |x| < b^(e+1)                       remove: x = f^k * c, f does not divide c
+//!   log2_bounds: lb <= log2|x| <= ub, decided by f64 log2 when the margin is > 2^-40 (relative)
+//!   and by a rigorous BigInt fixed-point enclosure (h12::log2_iv_u) otherwise.
+
+#[path = "h12.rs"]
+mod h12;
+
+use crate::core::{guard, is_internal_panic, Ctx, Rec};
+use crate::h::*;
+use crate::uni::*;
+use dashu_base::{CubicRoot, CubicRootRem, EstimatedLog2, ExtendedGcd, Gcd, SquareRoot, SquareRootRem};
+use dashu_int::{IBig, UBig};
+use h12::*;
+use num_bigint::{BigInt, BigUint, Sign as NSign};
+use num_integer::Integer;
+use num_traits::{One, Pow, Signed, ToPrimitive, Zero};
+
+const P: &str = "C12";
+
+fn bits_class(bits: u32) -> &'static str {
+    match bits {
+        0 => "zero",
+        1 => "one",
+        2..=8 => "bits2-8",
+        9..=16 => "bits9-16",
+        17..=32 => "bits17-32",
+        33..=64 => "bits33-64",
+        _ => "bits65-128",
+    }
+}
+
+fn mix(r: u64) -> u64 {
+    let x = r.wrapping_mul(0x9E37_79B9_7F4A_7C15);
+    x ^ (x >> 29)
+}
+
+// ---------------------------------------------------------------------------------------------
+// primitive roots
+
+#[inline]
+fn judge_root_prim(rec: &mut Rec, tn: &str, op: &str, n: u32, x: u128, got: Result<(u128, Option<u128>), String>) {
+    rec.step();
+    let cls = bits_class(128 - x.leading_zeros());
+    match got {
+        Ok((r, rem)) => {
+            if !is_floor_root_u128(x, n, r) {
+                let w = floor_root_u128(x, n);
+                rec.fail(format!("{}|{}::{}|wrong-value|{}", P, tn, op, cls), format!("{}{}.{}()", x, tn, op), format!("root {}", r), format!("root {} ({}^{} <= x < {}^{})", w, w, n, w + 1, n));
+            } else if let Some(e) = rem {
+                if r.pow(n) + e != x {
+                    rec.fail(format!("{}|{}::{}|wrong-remainder|{}", P, tn, op, cls), format!("{}{}.{}()", x, tn, op), format!("({}, {})", r, e), format!("({}, {})", r, x - r.pow(n)));
+                }
+            }
+        }
+        Err(p) => rec.fail(format!("{}|{}::{}|panic|{}", P, tn, op, cls), format!("{}{}.{}()", x, tn, op), format!("panic: {}", p), format!("root {}", floor_root_u128(x, n))),
+    }
+}
+
+macro_rules! prim_roots {
+    ($rec:expr, $t:ty, $x:expr, sqrt) => {{
+        let x: $t = $x;
+        judge_root_prim($rec, stringify!($t), "sqrt", 2, x as u128, guard(|| (x.sqrt() as u128, None)));
+        judge_root_prim($rec, stringify!($t), "sqrt_rem", 2, x as u128, guard(|| { let (r, e) = x.sqrt_rem(); (r as u128, Some(e as u128)) }));
+    }};
+    ($rec:expr, $t:ty, $x:expr, cbrt) => {{
+        let x: $t = $x;
+        judge_root_prim($rec, stringify!($t), "cbrt", 3, x as u128, guard(|| (x.cbrt() as u128, None)));
+        judge_root_prim($rec, stringify!($t), "cbrt_rem", 3, x as u128, guard(|| { let (r, e) = x.cbrt_rem(); (r as u128, Some(e as u128)) }));
+    }};
+    ($rec:expr, $t:ty, $x:expr) => {{
+        prim_roots!($rec, $t, $x, sqrt);
+        prim_roots!($rec, $t, $x, cbrt);
+    }};
+}
+
+/// value grid of a `bits`-wide unsigned type: 0..=17, 2^k, 2^k +- 1, 3*2^k, MAX-ish, Fibonacci
+/// numbers, primorial-like products, two LCG streams (all truncated to the width)
+fn prim_grid(bits: u32, seed: u64) -> Vec<u128> {
+    let max: u128 = if bits == 128 { u128::MAX } else { (1u128 << bits) - 1 };
+    let mut v: Vec<u128> = (0..=17).collect();
+    for k in 1..bits {
+        let p = 1u128 << k;
+        v.extend_from_slice(&[p, p - 1, p + 1, p.wrapping_mul(3) & max, (p | (p >> 1)) + 1, p ^ (p >> 3)]);
+    }
+    v.extend_from_slice(&[max, max - 1, max - 2, max / 2, max / 2 + 1, max / 3, max / 3 * 2, max / 5, max - (max >> 7)]);
+    let (mut a, mut b) = (1u128, 2u128);
+    while b <= max && b >= a {
+        v.push(b);
+        let c = a.wrapping_add(b);
+        if c < b {
+            break;
+        }
+        a = b;
+        b = c;
+    }
+    let mut pr: u128 = 1;
+    for q in [2u128, 3, 5, 7, 11, 13, 17, 19, 23, 29, 31, 37, 41, 43, 47, 53, 59, 61, 67, 71, 73, 79, 83, 89, 97, 101] {
+        match pr.checked_mul(q) {
+            Some(x) if x <= max => {
+                pr = x;
+                v.push(pr);
+                v.push((pr / 2).wrapping_mul(3) & max);
+            }
+            _ => break,
+        }
+    }
+    let mut st = 0x1234_5678_9ABC_DEF1u64 ^ seed.wrapping_mul(0x9E37_79B9_7F4A_7C15);
+    for i in 0..24u32 {
+        st = st.wrapping_mul(6364136223846793005).wrapping_add(1442695040888963407);
+        let hi = mix(st) as u128;
+        st = st.wrapping_mul(6364136223846793005).wrapping_add(1442695040888963407);
+        let x = (hi << 64 | mix(st) as u128) & max;
+        v.push(x >> (i * (bits / 24) % bits));
+    }
+    v.iter_mut().for_each(|x| *x &= max);
+    v.sort();
+    v.dedup();
+    v
+}
+
+fn sweeps_prim_roots(ctx: &mut Ctx) {
+    // P1: every u8 and u16 (and the same values zero-extended to the wider types)
+    ctx.sweep("prim.roots.u8u16", 256 + 65536, |i, rec| {
+        if i < 256 {
+            prim_roots!(rec, u8, i as u8);
+        } else {
+            let x = (i - 256) as u16;
+            prim_roots!(rec, u16, x);
+            prim_roots!(rec, u32, x as u32);
+            prim_roots!(rec, u64, x as u64);
+            prim_roots!(rec, u128, x as u128);
+            if x > 1 {
+                rec.nontrivial();
+            }
+            let (s, c) = (floor_root_u128(x as u128, 2), floor_root_u128(x as u128, 3));
+            if s * s == x as u128 {
+                rec.hit("perfect-square");
+            }
+            if c * c * c == x as u128 {
+                rec.hit("perfect-cube");
+            }
+        }
+        rec.sample(|| format!("sqrt/cbrt/sqrt_rem/cbrt_rem of {} in every unsigned width", if i < 256 { i } else { i - 256 }));
+    });
+    ctx.require_classes("prim.roots.u8u16", &["perfect-square", "perfect-cube"]);
+
+    // P2: u32 — perfect powers and neighbours (both tiers); every value (thorough)
+    ctx.sweep("prim.roots.u32.special", 65536, |i, rec| {
+        let r = i as u32;
+        let mut xs: Vec<u32> = vec![];
+        let sq = r.wrapping_mul(r);
+        xs.extend_from_slice(&[sq.wrapping_sub(1), sq, sq.wrapping_add(1)]);
+        if r < 1626 {
+            let cu = r * r * r;
+            xs.extend_from_slice(&[cu.wrapping_sub(1), cu, cu.wrapping_add(1)]);
+            rec.hit("cube-neighbourhood");
+        }
+        if r < 32 {
+            let p = 1u32 << r;
+            xs.extend_from_slice(&[p.wrapping_sub(1), p, p.wrapping_add(1), u32::MAX - r]);
+        }
+        for x in xs {
+            prim_roots!(rec, u32, x);
+            rec.nontrivial();
+        }
+        rec.sample(|| format!("u32 radicands {}^2-1, {}^2, {}^2+1 (and cubes when they fit)", r, r, r));
+    });
+    ctx.require_classes("prim.roots.u32.special", &["cube-neighbourhood"]);
+    if !ctx.quick() {
+        const BL: u64 = 4096;
+        ctx.sweep("prim.roots.u32.all", (1u64 << 32) / BL, |i, rec| {
+            for x in (i * BL)..((i + 1) * BL) {
+                prim_roots!(rec, u32, x as u32);
+            }
+            rec.nontrivial += BL;
+            rec.sample(|| format!("all four root operations on every u32 in [{}, {})", i * BL, (i + 1) * BL));
+        });
+        if let Some(s) = ctx.sweeps.last_mut() {
+            s.states = 1u64 << 32;
+        }
+    }
+
+    // P3: u64 / u128 by root: r^2-1, r^2, r^2+1 for every r below the bound; cubes likewise
+    const BL: u64 = 4096;
+    let rmax64: u64 = ctx.pick(1 << 24, 1 << 32);
+    let rmax128: u64 = ctx.pick(1 << 20, 1 << 26);
+    ctx.bound("u64_sqrt_every_root_below", rmax64);
+    ctx.bound("u64_cbrt_every_root_below", 2642246u64);
+    ctx.bound("u128_derived_roots_below", rmax128);
+    ctx.sweep("prim.roots.u64u128.byroot", rmax64 / BL, |i, rec| {
+        for r in (i * BL)..((i + 1) * BL) {
+            let sq = r * r;
+            for x in [sq.wrapping_sub(1), sq, sq + 1] {
+                prim_roots!(rec, u64, x, sqrt);
+            }
+            if r <= 2642245 {
+                let cu = r * r * r;
+                for x in [cu.wrapping_sub(1), cu, cu.wrapping_add(1)] {
+                    prim_roots!(rec, u64, x, cbrt);
+                }
+            }
+            if r < rmax128 {
+                // 64-bit root with both halves busy; 42-bit cube root
+                let big = ((r << 32) | (mix(r) & 0xFFFF_FFFF)) as u128 | ((r == 0) as u128);
+                let sq = big * big;
+                for x in [sq - 1, sq, sq.wrapping_add(1)] {
+                    prim_roots!(rec, u128, x, sqrt);
+                }
+                let c = ((r << 16) | (mix(r) & 0xFFFF)) as u128 | 1;
+                let cu = c * c * c;
+                for x in [cu - 1, cu, cu + 1] {
+                    prim_roots!(rec, u128, x, cbrt);
+                }
+            }
+        }
+        rec.nontrivial += BL;
+        rec.hit(if i * BL <= 2642245 { "u64-cubes" } else { "u64-squares-only" });
+        if i * BL < rmax128 {
+            rec.hit("u128-derived");
+        }
+        rec.sample(|| format!("u64 r^2-1,r^2,r^2+1 (r^3.. when it fits) for r in [{}, {}), derived u128 radicands", i * BL, (i + 1) * BL));
+    });
+    ctx.require_classes("prim.roots.u64u128.byroot", &["u64-cubes", "u64-squares-only", "u128-derived"]);
+    if let Some(s) = ctx.sweeps.last_mut() {
+        s.states = rmax64;
+    }
+
+    // P4: direct radicands from the value grids
+    let g64 = prim_grid(64, ctx.seed);
+    let g128 = prim_grid(128, ctx.seed);
+    let (n64, n128) = (g64.len() as u64, g128.len() as u64);
+    let (g64r, g128r) = (&g64, &g128);
+    ctx.sweep("prim.roots.grid", n64 + n128, |i, rec| {
+        if i < n64 {
+            let x = g64r[i as usize] as u64;
+            prim_roots!(rec, u64, x);
+            prim_roots!(rec, u128, (x as u128) << 64 | mix(x) as u128);
+            if x <= u32::MAX as u64 {
+                prim_roots!(rec, u32, x as u32);
+            }
+        } else {
+            prim_roots!(rec, u128, g128r[(i - n64) as usize]);
+        }
+        rec.nontrivial();
+        rec.sample(|| format!("grid radicand #{}", i));
+    });
+}
+
+// ---------------------------------------------------------------------------------------------
+// primitive gcd
+
+fn judge_gcd_prim(rec: &mut Rec, tn: &str, a: u128, b: u128, got: Result<u128, String>, got_ext: Result<(u128, BigInt, BigInt), String>) {
+    let cls = format!("{}x{}", bits_class(128 - a.leading_zeros()), bits_class(128 - b.leading_zeros()));
+    let case = || format!("{}{}.gcd[_ext]({})", a, tn, b);
+    if a == 0 && b == 0 {
+        rec.hit("zero-zero-panic");
+        expect_panic(rec, P, &format!("{}::gcd", tn), "gcd(0,0)", got, case);
+        expect_panic(rec, P, &format!("{}::gcd_ext", tn), "gcd(0,0)", got_ext, case);
+        return;
+    }
+    let g = gcd_euclid_u128(a, b);
+    rec.step();
+    match got {
+        Ok(v) if v == g => {}
+        Ok(v) => rec.fail(format!("{}|{}::gcd|wrong-value|{}", P, tn, cls), case(), v.to_string(), g.to_string()),
+        Err(p) => rec.fail(format!("{}|{}::gcd|panic|{}", P, tn, cls), case(), format!("panic: {}", p), g.to_string()),
+    }
+    rec.step();
+    match got_ext {
+        Ok((v, s, t)) => {
+            if v != g {
+                rec.fail(format!("{}|{}::gcd_ext|wrong-value|{}", P, tn, cls), case(), format!("g={} s={} t={}", v, s, t), format!("g={}", g));
+            } else if &s * BigInt::from(a) + &t * BigInt::from(b) != BigInt::from(g) {
+                rec.fail(format!("{}|{}::gcd_ext|wrong-coefficients|{}", P, tn, cls), case(), format!("g={} s={} t={} (s*a+t*b={})", v, s, t, &s * BigInt::from(a) + &t * BigInt::from(b)), format!("s*a + t*b = {}", g));
+            }
+        }
+        Err(p) => rec.fail(format!("{}|{}::gcd_ext|panic|{}", P, tn, cls), case(), format!("panic: {}", p), format!("g={} with Bezout coefficients", g)),
+    }
+    if a == 0 || b == 0 {
+        rec.hit("one-zero");
+    } else if a == b {
+        rec.hit("equal");
+    }
+    rec.hit(if g == 1 { "coprime" } else { "gcd>1" });
+    if a > 1 || b > 1 {
+        rec.nontrivial();
+    }
+}
+
+macro_rules! prim_gcd {
+    ($rec:expr, $t:ty, $a:expr, $b:expr) => {{
+        let (a, b): ($t, $t) = ($a as $t, $b as $t);
+        judge_gcd_prim(
+            $rec,
+            stringify!($t),
+            a as u128,
+            b as u128,
+            guard(|| a.gcd(b) as u128),
+            guard(|| {
+                let (g, s, t) = a.gcd_ext(b);
+                (g as u128, BigInt::from(s), BigInt::from(t))
+            }),
+        );
+    }};
+}
+
+fn sweeps_prim_gcd(ctx: &mut Ctx) {
+    ctx.sweep("prim.gcd.u8xu8", 65536, |i, rec| {
+        prim_gcd!(rec, u8, i >> 8, i & 255);
+        // the same pair through every wider type
+        prim_gcd!(rec, u16, i >> 8, i & 255);
+        prim_gcd!(rec, u32, i >> 8, i & 255);
+        prim_gcd!(rec, u64, i >> 8, i & 255);
+        prim_gcd!(rec, u128, i >> 8, i & 255);
+        prim_gcd!(rec, usize, i >> 8, i & 255);
+        rec.sample(|| format!("gcd/gcd_ext({}, {}) in u8..u128, usize", i >> 8, i & 255));
+    });
+    ctx.require_classes("prim.gcd.u8xu8", &["zero-zero-panic", "one-zero", "equal", "coprime", "gcd>1"]);
+
+    let b16 = prim_grid(16, ctx.seed);
+    let nb = b16.len() as u64;
+    ctx.bound("u16_boundary_values", nb);
+    let b16r = &b16;
+    ctx.sweep("prim.gcd.u16.boundary_x_all", nb * 65536, |i, rec| {
+        let (a, b) = (b16r[(i >> 16) as usize] as u16, (i & 0xFFFF) as u16);
+        prim_gcd!(rec, u16, a, b);
+        prim_gcd!(rec, u16, b, a);
+        rec.sample(|| format!("u16 gcd/gcd_ext({}, {}) both orders", a, b));
+    });
+
+    let grids: Vec<Vec<u128>> = vec![prim_grid(32, ctx.seed), prim_grid(64, ctx.seed), prim_grid(128, ctx.seed)];
+    let sizes: Vec<u64> = grids.iter().map(|g| (g.len() * g.len()) as u64).collect();
+    ctx.bound("gcd_grid_values_u32_u64_u128", serde_json::json!(grids.iter().map(|g| g.len()).collect::<Vec<_>>()));
+    let (gr, sz) = (&grids, &sizes);
+    ctx.sweep("prim.gcd.grid", sizes.iter().sum(), |mut i, rec| {
+        let mut k = 0;
+        while i >= sz[k] {
+            i -= sz[k];
+            k += 1;
+        }
+        let n = gr[k].len() as u64;
+        let (a, b) = (gr[k][(i / n) as usize], gr[k][(i % n) as usize]);
+        match k {
+            0 => prim_gcd!(rec, u32, a, b),
+            1 => {
+                prim_gcd!(rec, u64, a, b);
+                prim_gcd!(rec, usize, a, b);
+            }
+            _ => prim_gcd!(rec, u128, a, b),
+        }
+        rec.hit(["u32", "u64+usize", "u128"][k]);
+        rec.sample(|| format!("{} gcd/gcd_ext({:#x}, {:#x})", ["u32", "u64", "u128"][k], a, b));
+    });
+    ctx.require_classes("prim.gcd.grid", &["u32", "u64+usize", "u128", "zero-zero-panic", "one-zero", "equal", "coprime", "gcd>1"]);
+}
+
+// ---------------------------------------------------------------------------------------------
+// reference self-check (machinery error if it fails)
+
+fn self_check(ctx: &mut Ctx) -> bool {
+    let mut bad: Vec<String> = vec![];
+    // (1) enclosure vs 96-bit constants floor(log2(n/d) * 2^96) computed with mpmath (400 bits)
+    let consts: [(u32, u32, &str); 5] = [
+        (3, 1, "125573666586150569315490533898"),
+        (10, 1, "263190258962436467100402834429"),
+        (7, 5, "38459475551827621431347849126"),
+        (65535, 1, "1267648856103637992385421132465"),
+        (1, 3, "-125573666586150569315490533899"),
+    ];
+    for (n, d, c) in consts {
+        let c: BigInt = c.parse().unwrap();
+        let iv = log2_iv_q(&BigUint::from(n), &BigUint::from(d));
+        if !(iv.lo <= &c + 1 && iv.hi >= c && &iv.hi - &iv.lo <= BigInt::from(4)) {
+            bad.push(format!("log2 enclosure of {}/{} = [{}, {}] does not match the constant {}", n, d, iv.lo, iv.hi, c));
+        }
+    }
+    // (2) enclosure vs f64 log2 (validates the fast path) on small and on huge arguments
+    let mut args: Vec<BigUint> = (1u32..=2048).map(BigUint::from).collect();
+    for k in [24u64, 53, 64, 127, 128, 1000, 5000] {
+        for d in [-1i32, 0, 1] {
+            args.push((BigInt::from(pow2(k)) + d).to_biguint().unwrap());
+        }
+        args.push(pow2(k) * 3u32 + 1u32);
+    }
+    for a in &args {
+        let iv = log2_iv_u(a);
+        let l = log2_f64_big(a);
+        if !((iv.mid_f64() - l).abs() <= 1e-12 * l.abs().max(1.0)) || iv.lo > iv.hi {
+            bad.push(format!("log2 enclosure of {} has midpoint {} but f64 says {}", hexu(a), iv.mid_f64(), l));
+        }
+        if a.bits() <= 64 && a.trailing_zeros() == Some(a.bits() - 1) && iv.lo != iv.hi {
+            bad.push(format!("log2 enclosure of the power of two {} is not exact", hexu(a)));
+        }
+    }
+    // (3) exact f32 decomposition
+    for b in [1.0f32, -1.5, 1.5849625, f32::MIN_POSITIVE, f32::from_bits(1), f32::MAX, -0.1, 127.99999] {
+        let (m, e) = f32_parts(b);
+        if m.to_f64().unwrap() * 2f64.powi(e) != b as f64 {
+            bad.push(format!("f32_parts({:e}) wrong", b));
+        }
+    }
+    let iv3 = log2_iv_u(&BigUint::from(3u32));
+    if judge_lower(1.5849624, &iv3) != Verdict::Ok || judge_lower(1.5849626, &iv3) != Verdict::Violated || judge_upper(1.5849626, &iv3) != Verdict::Ok || judge_upper(1.5849624, &iv3) != Verdict::Violated {
+        bad.push("judge_lower/judge_upper disagree with log2(3) = 1.58496250072".into());
+    }
+    // (3b) exact intervals for values that are powers of two in disguise
+    let m3 = BigInt::from(-3) << F;
+    let e1 = log2_iv_float(&BigUint::from(125u32), 10, -3);
+    let e2 = log2_iv_float(&BigUint::from(9u32), 3, -2);
+    let e3 = log2_iv_q(&BigUint::from(6u32), &BigUint::from(48u32));
+    let e4 = log2_iv_float(&BigUint::from(3u32), 10, -1);
+    if e1.lo != m3 || e1.hi != m3 || !e2.lo.is_zero() || !e2.hi.is_zero() || e3.lo != m3 || e3.hi != m3 || e4.lo >= e4.hi || (e4.mid_f64() - 0.3f64.log2()).abs() > 1e-12 {
+        bad.push("log2_iv_float / log2_iv_q exactness check failed".into());
+    }
+    // (4) BigUint gcd / pow / roots / logs vs u128 definitions
+    let small: Vec<u128> = prim_grid(16, 0).into_iter().chain([u64::MAX as u128, 1 << 64, (1 << 64) + 1, 600851475143]).collect();
+    for &x in &small {
+        for &y in &small {
+            if x | y != 0 && BigUint::from(x).gcd(&BigUint::from(y)) != BigUint::from(gcd_euclid_u128(x, y)) {
+                bad.push(format!("num_integer gcd({}, {}) disagrees with Euclid on u128", x, y));
+            }
+        }
+        for n in [2u32, 3, 5] {
+            let r = floor_root_u128(x, n);
+            if !is_floor_root(&BigUint::from(x), n, &BigUint::from(r)) || is_floor_root(&BigUint::from(x), n, &BigUint::from(r + 1)) || (r > 0 && is_floor_root(&BigUint::from(x), n, &BigUint::from(r - 1))) {
+                bad.push(format!("is_floor_root disagrees with the u128 binary search at x={}, n={}", x, n));
+            }
+            if let Some(p) = (x as u64 as u128 % 65536).checked_pow(n) {
+                if Pow::pow(BigUint::from(x as u64 as u128 % 65536), n) != BigUint::from(p) {
+                    bad.push("BigUint pow disagrees with u128 checked_pow".into());
+                }
+            }
+        }
+        if x >= 1 {
+            for b in [2u128, 3, 10, 65536] {
+                let e = floor_log(&BigUint::from(x), &BigUint::from(b));
+                let ok = b.checked_pow(e as u32).map_or(false, |p| p <= x) && b.checked_pow(e as u32 + 1).map_or(true, |p| p > x);
+                if !ok || !is_floor_log(&BigUint::from(x), &BigUint::from(b), e) || is_floor_log(&BigUint::from(x), &BigUint::from(b), e + 1) {
+                    bad.push(format!("floor_log/is_floor_log wrong at x={}, b={}", x, b));
+                }
+            }
+        }
+    }
+    if bad.is_empty() {
+        true
+    } else {
+        for b in bad.iter().take(5) {
+            ctx.machinery(format!("reference self-check failed: {}", b));
+        }
+        false
+    }
+}
+
+// ---------------------------------------------------------------------------------------------
+// log2 judges
+
+const REL_TOL: f64 = 9.094947017729282e-13; // 2^-40
+
+/// outcome-class counters kept outside the BTreeMap in the hot loops, flushed once per case
+const TL_NAMES: [&str; 8] = ["decided-by-f64", "decided-by-enclosure", "log2-undecided", "bounds-coincide(exact)", "width>2^-8-relative(precision not judged)", "est-inside-own-bounds", "est-outside-own-bounds(not judged)", "zero->-inf"];
+#[derive(Default)]
+struct Tl {
+    c: [u64; 8],
+}
+impl Tl {
+    fn flush(&mut self, rec: &mut Rec) {
+        for (k, n) in self.c.iter_mut().enumerate() {
+            if *n != 0 {
+                *rec.classes.entry(TL_NAMES[k].to_string()).or_insert(0) += *n;
+                *n = 0;
+            }
+        }
+    }
+}
+
+fn log2_f64_u128(m: u128) -> f64 {
+    let bits = 128 - m.leading_zeros();
+    if bits <= 53 {
+        (m as f64).log2()
+    } else {
+        let sh = bits - 53;
+        ((m >> sh) as f64).log2() + sh as f64
+    }
+}
+
+fn log2_f64_big(x: &BigUint) -> f64 {
+    let bits = x.bits();
+    if bits <= 64 {
+        log2_f64_u128(x.to_u128().unwrap())
+    } else {
+        let sh = bits - 64;
+        log2_f64_u128((x >> sh).to_u128().unwrap()) + sh as f64
+    }
+}
+
+fn fmt_bounds(lb: f32, ub: f32) -> String {
+    format!("({:?}, {:?}) [bits {:#010x}, {:#010x}]", lb, ub, lb.to_bits(), ub.to_bits())
+}
+
+/// `l64` = f64 approximation of the true log2, accurate to 2^-40 * max(1, scale); `iv` builds the
+/// rigorous enclosure and is only called when f64 cannot decide.
+#[allow(clippy::too_many_arguments)]
+fn judge_log2(rec: &mut Rec, tl: &mut Tl, site: &str, class: &str, got: Result<(f32, f32), String>, l64: f64, scale: f64, iv: impl FnOnce() -> Iv, case: &dyn Fn() -> String) -> Option<(f32, f32)> {
+    rec.step();
+    let (lb, ub) = match got {
+        Ok(v) => v,
+        Err(p) => {
+            rec.fail(format!("{}|{}|panic|{}", P, site, class), case(), format!("panic: {}", p), format!("bounds around {}", l64));
+            return None;
+        }
+    };
+    let tol = REL_TOL * scale.abs().max(l64.abs()).max(1.0);
+    let (dl, du) = (l64 - lb as f64, ub as f64 - l64);
+    let (mut vl, mut vu) = (Verdict::Undecided, Verdict::Undecided);
+    if lb.is_finite() && l64.is_finite() {
+        if dl > tol {
+            vl = Verdict::Ok;
+        } else if dl < -tol {
+            vl = Verdict::Violated;
+        }
+    }
+    if ub.is_finite() && l64.is_finite() {
+        if du > tol {
+            vu = Verdict::Ok;
+        } else if du < -tol {
+            vu = Verdict::Violated;
+        }
+    }
+    let mut shown = l64;
+    if vl == Verdict::Undecided || vu == Verdict::Undecided {
+        let iv = iv();
+        shown = iv.mid_f64();
+        if vl == Verdict::Undecided {
+            vl = judge_lower(lb, &iv);
+        }
+        if vu == Verdict::Undecided {
+            vu = judge_upper(ub, &iv);
+        }
+        tl.c[1] += 1;
+    } else {
+        tl.c[0] += 1;
+    }
+    if vl == Verdict::Violated {
+        rec.fail(format!("{}|{}|not-enclosing-lower|{}", P, site, class), case(), fmt_bounds(lb, ub), format!("lower bound <= log2 = {:.12}", shown));
+    }
+    if vu == Verdict::Violated {
+        rec.fail(format!("{}|{}|not-enclosing-upper|{}", P, site, class), case(), fmt_bounds(lb, ub), format!("upper bound >= log2 = {:.12}", shown));
+    }
+    if vl == Verdict::Undecided || vu == Verdict::Undecided {
+        tl.c[2] += 1;
+    }
+    if lb == ub {
+        tl.c[3] += 1;
+    }
+    if ((ub - lb) as f64) > l64.abs() / 256.0 {
+        tl.c[4] += 1;
+    }
+    Some((lb, ub))
+}
+
+fn judge_log2_zero(rec: &mut Rec, tl: &mut Tl, site: &str, got: Result<(f32, f32), String>, case: &dyn Fn() -> String) {
+    rec.step();
+    match got {
+        Ok((lb, ub)) => {
+            if lb != f32::NEG_INFINITY || ub.is_nan() {
+                rec.fail(format!("{}|{}|not-enclosing-lower|zero", P, site), case(), fmt_bounds(lb, ub), "lower bound -inf (log2 0 = -inf), or the documented panic");
+            }
+            tl.c[7] += 1;
+        }
+        Err(p) => {
+            if is_internal_panic(&p) {
+                rec.fail(format!("{}|{}|internal-panic|zero", P, site), case(), format!("panic: {}", p), "(-inf, -inf) or the documented panic");
+            }
+            rec.hit("unspecified:zero-panics");
+        }
+    }
+}
+
+fn judge_est(rec: &mut Rec, tl: &mut Tl, site: &str, class: &str, got: Result<f32, String>, bounds: Option<(f32, f32)>, case: &dyn Fn() -> String) {
+    rec.step();
+    match got {
+        Ok(e) => {
+            if e.is_nan() {
+                rec.fail(format!("{}|{}|nan-estimate|{}", P, site, class), case(), "NaN", "a number");
+            } else if let Some((lb, ub)) = bounds {
+                tl.c[if lb <= e && e <= ub { 5 } else { 6 }] += 1;
+            }
+        }
+        Err(p) => rec.fail(format!("{}|{}|panic|{}", P, site, class), case(), format!("panic: {}", p), "an estimate"),
+    }
+}
+
+fn mag_class(m: u128) -> &'static str {
+    if m.is_power_of_two() {
+        "pow2"
+    } else {
+        match 128 - m.leading_zeros() {
+            0..=8 => "bits<=8",
+            9..=16 => "bits9-16",
+            17..=24 => "bits17-24",
+            25..=64 => "bits25-64",
+            _ => "bits65-128",
+        }
+    }
+}
+
+fn log2_prim_judge(rec: &mut Rec, tl: &mut Tl, tn: &'static str, site: &'static str, est_site: &'static str, mag: u128, shown: &dyn Fn() -> String, got: Result<(f32, f32), String>, est: Result<f32, String>) {
+    let case = || format!("{}{}.log2_bounds()", shown(), tn);
+    if mag == 0 {
+        judge_log2_zero(rec, tl, site, got, &case);
+        return;
+    }
+    let cls = mag_class(mag);
+    let b = judge_log2(rec, tl, site, cls, got, log2_f64_u128(mag), 0.0, || log2_iv_u(&BigUint::from(mag)), &case);
+    judge_est(rec, tl, est_site, cls, est, b, &case);
+    if mag > 1 {
+        rec.nontrivial();
+    }
+}
+
+macro_rules! prim_log2_u {
+    ($rec:expr, $tl:expr, $t:ty, $v:expr) => {{
+        let v: $t = $v as $t;
+        log2_prim_judge($rec, $tl, stringify!($t), concat!(stringify!($t), "::log2_bounds"), concat!(stringify!($t), "::log2_est"), v as u128, &|| format!("{}", v), guard(|| v.log2_bounds()), guard(|| v.log2_est()));
+    }};
+}
+macro_rules! prim_log2_i {
+    ($rec:expr, $tl:expr, $t:ty, $v:expr) => {{
+        let v: $t = $v as $t;
+        log2_prim_judge($rec, $tl, stringify!($t), concat!(stringify!($t), "::log2_bounds"), concat!(stringify!($t), "::log2_est"), v.unsigned_abs() as u128, &|| format!("{}", v), guard(|| v.log2_bounds()), guard(|| v.log2_est()));
+    }};
+}
+
+/// finite non-zero float given as (mantissa, exponent): log2 = log2(m) + e
+#[allow(clippy::too_many_arguments)]
+fn log2_float_judge(rec: &mut Rec, tl: &mut Tl, f64_impl: bool, class: &str, m: u64, e: i32, l64: f64, shown: &dyn Fn() -> String, got: Result<(f32, f32), String>, est: Result<f32, String>) {
+    let (site, est_site) = if f64_impl { ("f64::log2_bounds", "f64::log2_est") } else { ("f32::log2_bounds", "f32::log2_est") };
+    let case = || format!("{} as {}: log2_bounds()", shown(), &site[..3]);
+    let b = judge_log2(
+        rec,
+        tl,
+        site,
+        class,
+        got,
+        l64,
+        0.0,
+        || {
+            let iv = log2_iv_u(&BigUint::from(m));
+            let sh = BigInt::from(e) << F;
+            Iv { lo: iv.lo + &sh, hi: iv.hi + sh }
+        },
+        &case,
+    );
+    judge_est(rec, tl, est_site, class, est, b, &case);
+}
+
+fn judge_inf(rec: &mut Rec, site: &str, got: Result<(f32, f32), String>, shown: &dyn Fn() -> String) {
+    rec.step();
+    match got {
+        Ok((_, ub)) if ub == f32::INFINITY => {}
+        Ok((lb, ub)) => rec.fail(format!("{}|{}|not-enclosing-upper|infinite", P, site), shown(), fmt_bounds(lb, ub), "upper bound +inf"),
+        Err(p) => {
+            if is_internal_panic(&p) {
+                rec.fail(format!("{}|{}|internal-panic|infinite", P, site), shown(), p, "(inf, inf)")
+            }
+        }
+    }
+}
+
+/// per-block class counters of the float sweeps: pow2, subnormal, normal, infinite, nan, outside-f32
+const FC_NAMES: [&str; 6] = ["pow2", "subnormal", "normal", "infinite", "unspecified:nan", "normal-outside-f32-range"];
+
+fn f32_case(rec: &mut Rec, tl: &mut Tl, fc: &mut [u64; 6], bits: u32) {
+    let x = f32::from_bits(bits);
+    let shown = || format!("f32::from_bits({:#010x}) = {:e}", bits, x);
+    if x.is_nan() {
+        rec.step();
+        let _ = guard(|| x.log2_bounds());
+        fc[4] += 1;
+        return;
+    }
+    if x == 0.0 {
+        judge_log2_zero(rec, tl, "f32::log2_bounds", guard(|| x.log2_bounds()), &|| format!("{}.log2_bounds()", shown()));
+        return;
+    }
+    if x.is_infinite() {
+        judge_inf(rec, "f32::log2_bounds", guard(|| x.log2_bounds()), &shown);
+        fc[3] += 1;
+        return;
+    }
+    let ex = (bits >> 23) & 0xff;
+    let fr = bits & 0x7f_ffff;
+    let (m, e) = if ex == 0 { (fr as u64, -149) } else { ((fr | 0x80_0000) as u64, ex as i32 - 150) };
+    let (class, ci) = if m.is_power_of_two() {
+        ("pow2", 0)
+    } else if ex == 0 {
+        ("subnormal", 1)
+    } else {
+        ("normal", 2)
+    };
+    fc[ci] += 1;
+    let l64 = (x as f64).abs().log2();
+    log2_float_judge(rec, tl, false, class, m, e, l64, &shown, guard(|| x.log2_bounds()), guard(|| x.log2_est()));
+    // the same value through the f64 implementation
+    let y = x as f64;
+    log2_float_judge(rec, tl, true, class, m, e, l64, &shown, guard(|| y.log2_bounds()), guard(|| y.log2_est()));
+}
+
+fn f64_case(rec: &mut Rec, tl: &mut Tl, fc: &mut [u64; 6], bits: u64) {
+    let x = f64::from_bits(bits);
+    let shown = || format!("f64::from_bits({:#018x}) = {:e}", bits, x);
+    if x.is_nan() {
+        rec.step();
+        let _ = guard(|| x.log2_bounds());
+        fc[4] += 1;
+        return;
+    }
+    if x == 0.0 {
+        judge_log2_zero(rec, tl, "f64::log2_bounds", guard(|| x.log2_bounds()), &|| format!("{}.log2_bounds()", shown()));
+        return;
+    }
+    if x.is_infinite() {
+        judge_inf(rec, "f64::log2_bounds", guard(|| x.log2_bounds()), &shown);
+        fc[3] += 1;
+        return;
+    }
+    let ex = ((bits >> 52) & 0x7ff) as i32;
+    let fr = bits & ((1u64 << 52) - 1);
+    let (m, e) = if ex == 0 { (fr, -1074) } else { (fr | (1 << 52), ex - 1075) };
+    let (class, ci) = if m.is_power_of_two() {
+        ("pow2", 0)
+    } else if ex == 0 {
+        ("subnormal", 1)
+    } else if !(897..=1150).contains(&ex) {
+        ("normal-outside-f32-range", 5)
+    } else {
+        ("normal", 2)
+    };
+    fc[ci] += 1;
+    // f64 log2 of the float itself; for subnormals go through the integer mantissa
+    let l64 = if ex == 0 { log2_f64_u128(m as u128) + e as f64 } else { x.abs().log2() };
+    log2_float_judge(rec, tl, true, class, m, e, l64, &shown, guard(|| x.log2_bounds()), guard(|| x.log2_est()));
+    rec.nontrivial();
+}
+
+fn flush_fc(rec: &mut Rec, fc: &mut [u64; 6]) {
+    for (k, n) in fc.iter_mut().enumerate() {
+        if *n != 0 {
+            *rec.classes.entry(FC_NAMES[k].to_string()).or_insert(0) += *n;
+            *n = 0;
+        }
+    }
+}
+
+/// an enclosure that could not decide a bound is a machinery problem, never a silent pass
+fn no_undecided(ctx: &mut Ctx, sweep: &str) {
+    let n = ctx.sweeps.iter().find(|s| s.name == sweep).and_then(|s| s.classes.get("log2-undecided").copied()).unwrap_or(0);
+    if n > 0 {
+        ctx.machinery(format!("sweep {}: {} log2 bounds could not be decided by the 96-bit enclosure", sweep, n));
+    }
+}
+
+fn sweeps_prim_log2(ctx: &mut Ctx) {
+    ctx.sweep("prim.log2.u8u16", 65536, |i, rec| {
+        let tl = &mut Tl::default();
+        if i < 256 {
+            prim_log2_u!(rec, tl, u8, i);
+            prim_log2_i!(rec, tl, i8, i as u8 as i8);
+        }
+        prim_log2_u!(rec, tl, u16, i);
+        prim_log2_i!(rec, tl, i16, i as u16 as i16);
+        prim_log2_u!(rec, tl, u32, i);
+        prim_log2_u!(rec, tl, u64, i);
+        prim_log2_u!(rec, tl, u128, i);
+        prim_log2_u!(rec, tl, usize, i);
+        prim_log2_i!(rec, tl, i32, -(i as i32));
+        tl.flush(rec);
+        rec.sample(|| format!("log2_bounds/log2_est of {} as u8/u16/.. and of the same bit pattern as i8/i16", i));
+    });
+    ctx.require_classes("prim.log2.u8u16", &["zero->-inf", "decided-by-f64", "decided-by-enclosure", "bounds-coincide(exact)"]);
+    no_undecided(ctx, "prim.log2.u8u16");
+
+    const BL: u64 = 4096;
+    let quick = ctx.quick();
+    // quick: every pattern whose low mantissa byte is 00 or FF (2^25), plus every pattern with
+    // |bits| < 2^16 of either sign (small subnormal mantissas take the u8/u16 paths in no_std)
+    let total: u64 = if quick { (1 << 25) + (1 << 17) } else { 1 << 32 };
+    ctx.bound("f32_bit_patterns", total);
+    ctx.sweep("prim.log2.f32", total / BL, |i, rec| {
+        let tl = &mut Tl::default();
+        let fc = &mut [0u64; 6];
+        for j in (i * BL)..((i + 1) * BL) {
+            let bits = if !quick {
+                j as u32
+            } else if j < (1 << 25) {
+                ((j >> 1) << 8 | if j & 1 == 1 { 0xFF } else { 0 }) as u32
+            } else {
+                let k = (j - (1 << 25)) as u32;
+                (k & 0xFFFF) | (k >> 16) << 31
+            };
+            f32_case(rec, tl, fc, bits);
+        }
+        tl.flush(rec);
+        flush_fc(rec, fc);
+        rec.nontrivial += BL;
+        rec.sample(|| format!("f32 (and the same value as f64) log2_bounds/log2_est, pattern block {}", i));
+    });
+    ctx.require_classes("prim.log2.f32", &["pow2", "subnormal", "normal", "infinite", "unspecified:nan", "decided-by-f64", "decided-by-enclosure"]);
+    no_undecided(ctx, "prim.log2.f32");
+    if let Some(s) = ctx.sweeps.last_mut() {
+        s.states = total;
+    }
+
+    let g32 = prim_grid(32, ctx.seed);
+    let g64 = prim_grid(64, ctx.seed);
+    let g128 = prim_grid(128, ctx.seed);
+    let mants: [u64; 13] = [0, 1, 2, 3, 7, 1000, 1 << 51, (1 << 52) - 1, (1 << 52) - 2, 0x5_5555_5555_5555, 0xA_AAAA_AAAA_AAAA, 0x3_243F_6A88_85A3, 0xF_FFFF_E000_0000];
+    let (n32, n64, n128) = (g32.len() as u64, g64.len() as u64, g128.len() as u64);
+    let nf = 2 * 2048 * mants.len() as u64;
+    let (g32r, g64r, g128r, mr) = (&g32, &g64, &g128, &mants);
+    ctx.sweep("prim.log2.grid", n32 + n64 + n128 + nf, |i, rec| {
+        let tl = &mut Tl::default();
+        let fc = &mut [0u64; 6];
+        if i < n32 {
+            let v = g32r[i as usize] as u32;
+            prim_log2_u!(rec, tl, u32, v);
+            prim_log2_i!(rec, tl, i32, v as i32);
+            // around the 24-bit switch of the std implementation
+            prim_log2_u!(rec, tl, u32, (v >> 8) | 1 << 23);
+            prim_log2_u!(rec, tl, u64, ((v as u64) << 1 | 1) << 20);
+        } else if i < n32 + n64 {
+            let v = g64r[(i - n32) as usize] as u64;
+            prim_log2_u!(rec, tl, u64, v);
+            prim_log2_i!(rec, tl, i64, v as i64);
+            prim_log2_u!(rec, tl, usize, v as usize);
+            prim_log2_i!(rec, tl, isize, v as isize);
+        } else if i < n32 + n64 + n128 {
+            let v = g128r[(i - n32 - n64) as usize];
+            prim_log2_u!(rec, tl, u128, v);
+            prim_log2_i!(rec, tl, i128, v as i128);
+        } else {
+            let [s, e, m] = unflatten(i - n32 - n64 - n128, [2, 2048, mr.len() as u64]);
+            f64_case(rec, tl, fc, (s as u64) << 63 | (e as u64) << 52 | mr[m]);
+        }
+        tl.flush(rec);
+        flush_fc(rec, fc);
+        rec.sample(|| format!("grid value #{}", i));
+    });
+    ctx.require_classes("prim.log2.grid", &["bounds-coincide(exact)", "decided-by-f64", "normal-outside-f32-range", "subnormal", "infinite"]);
+    no_undecided(ctx, "prim.log2.grid");
+}
+
+// ---------------------------------------------------------------------------------------------
+// big gcd
+
+fn nonneg(x: &BigInt) -> bool {
+    x.sign() != NSign::Minus
+}
+
+type Ext = (UBig, IBig, IBig);
+
+/// unordered length class of an operand pair (gcd is symmetric)
+fn pair_class(a: &BigInt, b: &BigInt) -> String {
+    let (la, lb) = (word_len(a.magnitude()), word_len(b.magnitude()));
+    format!("{}x{}", size_class(la.max(lb)), size_class(la.min(lb)))
+}
+
+fn panic_kind(p: &str) -> String {
+    let h = crate::core::panic_class(p);
+    h.lines().next().unwrap_or("").trim().chars().take(48).collect()
+}
+
+fn judge_ext(rec: &mut Rec, site: &str, class: &str, got: &Result<Ext, String>, a: &BigInt, b: &BigInt, g: &BigUint, case: &dyn Fn() -> String) {
+    rec.step();
+    match got {
+        Ok((gg, s, t)) => {
+            let (gg, s, t) = (u_to_ref(gg), i_to_ref(s), i_to_ref(t));
+            if &gg != g {
+                rec.fail(format!("{}|{}|wrong-value|{}", P, site, class), case(), format!("g={}", hexu(&gg)), format!("g={}", hexu(g)));
+            } else if &s * a + &t * b != BigInt::from(g.clone()) {
+                rec.fail(format!("{}|{}|wrong-coefficients|{}", P, site, class), case(), format!("g={} s={} t={} but s*a+t*b={}", hexu(&gg), hex(&s), hex(&t), hex(&(&s * a + &t * b))), format!("s*a + t*b = g = {}", hexu(g)));
+            } else {
+                // size of the coefficients is not documented: histogram only
+                let small = (b.is_zero() || s.magnitude() <= b.magnitude()) && (a.is_zero() || t.magnitude() <= a.magnitude());
+                rec.hit(if small { "coefficients<=operands" } else { "coefficients-larger-than-operands(not judged)" });
+            }
+        }
+        Err(p) => rec.fail(format!("{}|{}|panic|{};{}", P, site, class, panic_kind(p)), case(), format!("panic: {}", p), format!("g={} with s*a+t*b=g", hexu(g))),
+    }
+}
+
+/// A further call form of the same operation: identical to the already judged base form (the
+/// normal case: all forms forward to one routine) => nothing new to judge; otherwise it is
+/// judged on its own against the oracle under its own call-site name.
+#[allow(clippy::too_many_arguments)]
+fn ext_form(rec: &mut Rec, site: &str, class: &str, got: Result<Ext, String>, base: &Result<Ext, String>, a: &BigInt, b: &BigInt, g: &BigUint, case: &dyn Fn() -> String) {
+    let same = match (&got, base) {
+        (Ok(x), Ok(y)) => x == y,
+        (Err(x), Err(y)) => panic_kind(x) == panic_kind(y),
+        _ => false,
+    };
+    if same {
+        rec.step();
+        rec.hit("form-identical-to-base");
+    } else {
+        rec.hit("form-differs-from-base");
+        judge_ext(rec, site, class, &got, a, b, g, case);
+    }
+}
+
+fn gcd_form(rec: &mut Rec, site: &str, class: &str, got: Result<UBig, String>, base: &Result<UBig, String>, g: &BigUint, case: &dyn Fn() -> String) {
+    let same = match (&got, base) {
+        (Ok(x), Ok(y)) => x == y,
+        (Err(x), Err(y)) => panic_kind(x) == panic_kind(y),
+        _ => false,
+    };
+    if same {
+        rec.step();
+        rec.hit("form-identical-to-base");
+    } else {
+        rec.hit("form-differs-from-base");
+        expect_u(rec, P, site, class, got, g, case);
+    }
+}
+
+fn check_gcd_pair(rec: &mut Rec, a: &BigInt, b: &BigInt, all_forms: bool) {
+    let case = || format!("gcd[_ext]({}, {})", hex(a), hex(b));
+    let case: &dyn Fn() -> String = &case;
+    let (ia, ib) = (ref_to_i(a), ref_to_i(b));
+    if a.is_zero() && b.is_zero() {
+        rec.hit("zero-zero-panic");
+        expect_panic(rec, P, "IBig::gcd", "gcd(0,0)", guard(|| (&ia).gcd(&ib)), case);
+        expect_panic(rec, P, "IBig::gcd_ext", "gcd(0,0)", guard(|| (&ia).gcd_ext(&ib)), case);
+        expect_panic(rec, P, "UBig::gcd", "gcd(0,0)", guard(|| UBig::ZERO.gcd(UBig::ZERO)), case);
+        expect_panic(rec, P, "UBig::gcd_ext", "gcd(0,0)", guard(|| UBig::ZERO.gcd_ext(UBig::ZERO)), case);
+        return;
+    }
+    let class = pair_class(a, b);
+    let class = class.as_str();
+    let g: BigUint = a.magnitude().gcd(b.magnitude());
+    // base forms, judged by the oracle
+    let base_g = guard(|| (&ia).gcd(&ib));
+    rec.step();
+    match &base_g {
+        Ok(v) if &u_to_ref(v) == &g => {}
+        Ok(v) => rec.fail(format!("{}|IBig::gcd|wrong-value|{}", P, class), case(), hexu(&u_to_ref(v)), hexu(&g)),
+        Err(p) => rec.fail(format!("{}|IBig::gcd|panic|{};{}", P, class, panic_kind(p)), case(), format!("panic: {}", p), hexu(&g)),
+    }
+    let base_e = guard(|| (&ia).gcd_ext(&ib));
+    judge_ext(rec, "IBig::gcd_ext", class, &base_e, a, b, &g, case);
+    if all_forms {
+        gcd_form(rec, "IBig::gcd(val,val)", class, guard(|| ia.clone().gcd(ib.clone())), &base_g, &g, case);
+        gcd_form(rec, "IBig::gcd(ref,val)", class, guard(|| (&ia).gcd(ib.clone())), &base_g, &g, case);
+        gcd_form(rec, "IBig::gcd(val,ref)", class, guard(|| ia.clone().gcd(&ib)), &base_g, &g, case);
+        ext_form(rec, "IBig::gcd_ext(val,val)", class, guard(|| ia.clone().gcd_ext(ib.clone())), &base_e, a, b, &g, case);
+        ext_form(rec, "IBig::gcd_ext(ref,val)", class, guard(|| (&ia).gcd_ext(ib.clone())), &base_e, a, b, &g, case);
+        ext_form(rec, "IBig::gcd_ext(val,ref)", class, guard(|| ia.clone().gcd_ext(&ib)), &base_e, a, b, &g, case);
+    }
+    if nonneg(a) {
+        let ua = ref_to_u(a.magnitude());
+        if all_forms {
+            gcd_form(rec, "UBig::gcd(IBig)", class, guard(|| (&ua).gcd(&ib)), &base_g, &g, case);
+            gcd_form(rec, "IBig::gcd(UBig)", class, guard(|| (&ib).gcd(&ua)), &base_g, &g, case);
+            ext_form(rec, "UBig::gcd_ext(IBig)", class, guard(|| (&ua).gcd_ext(&ib)), &base_e, a, b, &g, case);
+            ext_form(rec, "IBig::gcd_ext(UBig)", class, guard(|| (&ib).gcd_ext(&ua)), &guard(|| (&ib).gcd_ext(&ia)), b, a, &g, case);
+        }
+        if nonneg(b) {
+            let ub = ref_to_u(b.magnitude());
+            gcd_form(rec, "UBig::gcd", class, guard(|| (&ua).gcd(&ub)), &base_g, &g, case);
+            ext_form(rec, "UBig::gcd_ext", class, guard(|| (&ua).gcd_ext(&ub)), &base_e, a, b, &g, case);
+            if all_forms {
+                gcd_form(rec, "UBig::gcd(val,val)", class, guard(|| ua.clone().gcd(ub.clone())), &base_g, &g, case);
+                gcd_form(rec, "UBig::gcd(ref,val)", class, guard(|| (&ua).gcd(ub.clone())), &base_g, &g, case);
+                gcd_form(rec, "UBig::gcd(val,ref)", class, guard(|| ua.clone().gcd(&ub)), &base_g, &g, case);
+                ext_form(rec, "UBig::gcd_ext(val,val)", class, guard(|| ua.clone().gcd_ext(ub.clone())), &base_e, a, b, &g, case);
+                ext_form(rec, "UBig::gcd_ext(ref,val)", class, guard(|| (&ua).gcd_ext(ub.clone())), &base_e, a, b, &g, case);
+                ext_form(rec, "UBig::gcd_ext(val,ref)", class, guard(|| ua.clone().gcd_ext(&ub)), &base_e, a, b, &g, case);
+            }
+        }
+    }
+    let (la, lb) = (word_len(a.magnitude()), word_len(b.magnitude()));
+    rec.hit(match (la.min(lb), la.max(lb)) {
+        (0..=2, 0..=2) => "small,small",
+        (0..=1, _) => "large,word",
+        (2, _) => "large,dword",
+        _ => "large,large",
+    });
+    if a.is_zero() || b.is_zero() {
+        rec.hit("one-zero");
+    } else if a.magnitude() == b.magnitude() {
+        rec.hit("equal-magnitudes");
+    }
+    rec.hit(if g.is_one() { "coprime" } else { "gcd>1" });
+    if la.max(lb) >= 300 {
+        rec.hit("dword-lehmer-guess(len>=300)");
+    }
+    if !(a.abs() <= BigInt::one() && b.abs() <= BigInt::one()) {
+        rec.nontrivial();
+    }
+}
+
+fn fib_pairs(max_words: usize) -> Vec<(BigUint, BigUint, usize)> {
+    // consecutive Fibonacci numbers just below / above each multiple of 64 bits (long quotient-1 chains)
+    let mut out = vec![];
+    let (mut a, mut b) = (BigUint::one(), BigUint::from(2u32));
+    let mut k = 3usize;
+    while b.bits() <= 64 * max_words as u64 + 2 {
+        let c = &a + &b;
+        let (bb, cb) = (b.bits(), c.bits());
+        if bb / 64 != cb / 64 || (cb % 64 == 1 && bb % 64 == 0) || k < 6 {
+            out.push((b.clone(), a.clone(), k));
+            out.push((c.clone(), b.clone(), k + 1));
+        }
+        a = b;
+        b = c;
+        k += 1;
+    }
+    out
+}
+
+fn sweeps_big_gcd(ctx: &mut Ctx) {
+    let i3 = signed(&i3_mags());
+    let n = i3.len() as u64;
+    ctx.bound("I3_signed_values", n);
+    let i3r = &i3;
+    ctx.sweep("big.gcd.I3xI3", n * n, |i, rec| {
+        let (a, b) = (&i3r[(i / n) as usize], &i3r[(i % n) as usize]);
+        let small = a.magnitude().bits() <= 128 && b.magnitude().bits() <= 128;
+        check_gcd_pair(rec, a, b, small || i % 8 == 0);
+        rec.sample(|| format!("gcd/gcd_ext({}, {}) in all UBig/IBig/mixed forms", hex(a), hex(b)));
+    });
+    ctx.require_classes("big.gcd.I3xI3", &["zero-zero-panic", "one-zero", "equal-magnitudes", "coprime", "gcd>1", "small,small", "large,word", "large,dword", "large,large"]);
+
+    // shape pairs times a common factor
+    let lens: Vec<usize> = ctx.pick(vec![1, 2, 3, 4, 8, 40], vec![1, 2, 3, 4, 5, 8, 16, 40, 64, 150, 299, 300, 301, 400]);
+    let pats: Vec<&'static str> = ctx.pick(vec!["ones", "top1", "topmax_low0", "sparse", "lcgA", "lcgSeed"], PATTERNS.to_vec());
+    let sh = shapes(&lens, &pats, ctx.seed);
+    let factors: Vec<BigUint> = vec![BigUint::one(), shape(3, "lcgB", ctx.seed) | BigUint::one(), pow2(70), shape(2, "ones", 0) * 12u32];
+    let (ns, nf) = (sh.len() as u64, factors.len() as u64);
+    ctx.bound("gcd_shape_lengths_words", serde_json::json!(lens));
+    ctx.bound("gcd_shape_values", ns);
+    let (shr, fr) = (&sh, &factors);
+    ctx.sweep("big.gcd.shape", ns * ns * nf, |i, rec| {
+        let [x, y, f] = unflatten(i, [ns, ns, nf]);
+        let (a, b) = (BigInt::from(&shr[x].v * &fr[f]), BigInt::from(&shr[y].v * &fr[f]));
+        check_gcd_pair(rec, &a, &b, false);
+        if f == 0 && x % 3 == 0 {
+            // sign handling on large operands
+            check_gcd_pair(rec, &-a, &b, false);
+        }
+        rec.sample(|| format!("gcd/gcd_ext({}w:{} * f{}, {}w:{} * f{})", shr[x].len, shr[x].pat, f, shr[y].len, shr[y].pat, f));
+    });
+    ctx.require_classes("big.gcd.shape", &["gcd>1", "large,large", "large,word", "large,dword", "equal-magnitudes"]);
+
+    // explicit special pairs
+    let mut sp: Vec<(BigInt, BigInt, &'static str)> = vec![];
+    for (a, b, _k) in fib_pairs(ctx.pick(41, 301)) {
+        for sc in [0u64, 1, 64, 130] {
+            sp.push((BigInt::from(&a << sc), BigInt::from(&b << sc), "fib"));
+        }
+        sp.push((BigInt::from(&a << 64u32), BigInt::from(b.clone()), "fib"));
+    }
+    let tz_vals: Vec<BigUint> = vec![BigUint::one(), BigUint::from(3u32), BigUint::from(u64::MAX), shape(2, "lcgA", 0), shape(2, "ones", 0), shape(3, "lcgB", 0), shape(3, "top1", 0), pow2(63), pow2(127) + 1u32];
+    let tz_shifts: [u64; 7] = [0, 1, 2, 3, 5, 9, 40];
+    for a in &tz_vals {
+        for b in &tz_vals {
+            for &i in &tz_shifts {
+                for &j in &tz_shifts {
+                    if i + j > 0 {
+                        sp.push((BigInt::from(a << (64 * i)), BigInt::from(b << (64 * j)), "tz"));
+                    }
+                }
+            }
+        }
+    }
+    // Lehmer quotient overflow / guess failure: leading words far apart, or equal leading words
+    for len in [3usize, 4, 8, 40] {
+        for (pa, pb) in [("topmax_low0", "top1"), ("ones", "top1p1"), ("ones", "topmax_low0"), ("lcgA", "top1"), ("sparse", "top1")] {
+            let (a, b) = (shape(len, pa, 0), shape(len, pb, 0));
+            sp.push((BigInt::from(a.clone()), BigInt::from(b.clone()), "qover"));
+            sp.push((BigInt::from(&a + 1u32), BigInt::from(a.clone()), "qover"));
+            sp.push((BigInt::from(&a * &b), BigInt::from(b.clone() << 64u32), "qover"));
+            sp.push((BigInt::from(&a * &b + 1u32), BigInt::from(b), "qover"));
+        }
+    }
+    // >= 300 words: double-word guess
+    let big_lens: Vec<usize> = ctx.pick(vec![299, 300, 301], vec![299, 300, 301, 302, 600]);
+    let bigs = shapes(&big_lens, &["lcgA", "lcgB", "ones", "alt"], ctx.seed);
+    for x in &bigs {
+        for y in &bigs {
+            sp.push((BigInt::from(x.v.clone()), BigInt::from(y.v.clone()), "dwguess"));
+        }
+        sp.push((BigInt::from(&x.v * 0xFFFF_FFFBu32), BigInt::from(shape(5, "lcgA", 0) * 0xFFFF_FFFBu32), "dwguess"));
+    }
+    let nsp = sp.len() as u64;
+    ctx.bound("gcd_special_pairs", nsp);
+    let spr = &sp;
+    ctx.sweep("big.gcd.special", nsp, |i, rec| {
+        let (a, b, tag) = &spr[i as usize];
+        check_gcd_pair(rec, a, b, false);
+        check_gcd_pair(rec, b, a, false);
+        rec.hit(tag);
+        rec.sample(|| format!("[{}] gcd/gcd_ext({}, {}) both orders", tag, hex(a), hex(b)));
+    });
+    ctx.require_classes("big.gcd.special", &["fib", "tz", "qover", "dwguess", "dword-lehmer-guess(len>=300)", "coprime", "gcd>1"]);
+}
+
+// ---------------------------------------------------------------------------------------------
+// big roots
+
+fn root_class(x: &BigUint) -> String {
+    if x.is_zero() {
+        return "zero".into();
+    }
+    let w = word_len(x);
+    format!("{}-words,{}", if w % 2 == 1 { "odd" } else { "even" }, size_class(w))
+}
+
+fn n_class(n: usize) -> &'static str {
+    match n {
+        0 => "n=0",
+        1 => "n=1",
+        2 => "n=2",
+        3 => "n=3",
+        4..=7 => "n=4-7",
+        _ => "n>=64",
+    }
+}
+
+/// `got` = (root, remainder if the operation returns one); `neg` = the radicand was -x
+#[allow(clippy::too_many_arguments)]
+fn judge_root(rec: &mut Rec, site: &str, class: &str, x: &BigUint, n: usize, neg: bool, got: Result<(BigInt, Option<BigUint>), String>, case: &dyn Fn() -> String) {
+    rec.step();
+    let want = || {
+        let r = BigInt::from(x.nth_root(n as u32));
+        if neg {
+            -r
+        } else {
+            r
+        }
+    };
+    match got {
+        Ok((r, rem)) => {
+            let sign_ok = r.is_zero() || (r.sign() == NSign::Minus) == neg;
+            if !sign_ok || !is_floor_root(x, n as u32, r.magnitude()) {
+                rec.fail(format!("{}|{}|wrong-value|{}", P, site, class), case(), format!("root {}", hex(&r)), format!("root {} (truncated toward zero)", hex(&want())));
+            } else if let Some(e) = rem {
+                let p: BigUint = Pow::pow(r.magnitude(), n as u32);
+                if &p + &e != *x {
+                    rec.fail(format!("{}|{}|wrong-remainder|{}", P, site, class), case(), format!("root {} remainder {}", hex(&r), hexu(&e)), format!("remainder {} (= x - root^{})", hexu(&(x - &p)), n));
+                }
+            }
+        }
+        Err(p) => rec.fail(format!("{}|{}|panic|{};{}", P, site, class, panic_kind(&p)), case(), format!("panic: {}", p), format!("root {}", hex(&want()))),
+    }
+}
+
+/// all root operations that apply to the radicand x (and -x) for the given orders
+fn check_roots(rec: &mut Rec, x: &BigUint, orders: &[usize], sqrt_ops: bool, cbrt_ops: bool, with_ibig: bool) {
+    let ux = ref_to_u(x);
+    let rc = root_class(x);
+    let rc = rc.as_str();
+    let case_s = |op: &str| format!("{}.{}", hexu(x), op);
+    if sqrt_ops {
+        judge_root(rec, "UBig::sqrt", rc, x, 2, false, guard(|| (BigInt::from(u_to_ref(&ux.sqrt())), None)), &|| case_s("sqrt()"));
+        judge_root(rec, "UBig::sqrt_rem", rc, x, 2, false, guard(|| { let (s, r) = ux.sqrt_rem(); (BigInt::from(u_to_ref(&s)), Some(u_to_ref(&r))) }), &|| case_s("sqrt_rem()"));
+    }
+    if cbrt_ops {
+        judge_root(rec, "UBig::cbrt", rc, x, 3, false, guard(|| (BigInt::from(u_to_ref(&ux.cbrt())), None)), &|| case_s("cbrt()"));
+        judge_root(rec, "UBig::cbrt_rem", rc, x, 3, false, guard(|| { let (s, r) = ux.cbrt_rem(); (BigInt::from(u_to_ref(&s)), Some(u_to_ref(&r))) }), &|| case_s("cbrt_rem()"));
+    }
+    for &n in orders {
+        let cls = if x.is_zero() { rc.to_string() } else { format!("{},{}", rc, n_class(n)) };
+        if n == 0 {
+            expect_panic(rec, P, "UBig::nth_root", "zeroth root", guard(|| ux.nth_root(0)), || case_s("nth_root(0)"));
+            rec.hit("zeroth-root-panic");
+        } else {
+            judge_root(rec, "UBig::nth_root", &cls, x, n, false, guard(|| (BigInt::from(u_to_ref(&ux.nth_root(n))), None)), &|| case_s(&format!("nth_root({})", n)));
+        }
+    }
+    if with_ibig {
+        let ip = IBig::from(ux.clone());
+        let case_p = |op: &str| format!("IBig({}).{}", hexu(x), op);
+        if sqrt_ops {
+            judge_root(rec, "IBig::sqrt", rc, x, 2, false, guard(|| (BigInt::from(u_to_ref(&ip.sqrt())), None)), &|| case_p("sqrt()"));
+        }
+        if cbrt_ops {
+            judge_root(rec, "IBig::cbrt", rc, x, 3, false, guard(|| (i_to_ref(&ip.cbrt()), None)), &|| case_p("cbrt()"));
+        }
+        for &n in orders {
+            if n == 0 {
+                expect_panic(rec, P, "IBig::nth_root", "zeroth root", guard(|| ip.nth_root(0)), || case_p("nth_root(0)"));
+            } else {
+                judge_root(rec, "IBig::nth_root", &(if x.is_zero() { rc.to_string() } else { format!("{},{}", rc, n_class(n)) }), x, n, false, guard(|| (i_to_ref(&ip.nth_root(n)), None)), &|| case_p(&format!("nth_root({})", n)));
+            }
+        }
+        if !x.is_zero() {
+            let im = -ip;
+            let case_m = |op: &str| format!("IBig(-{}).{}", hexu(x), op);
+            let ncls = "negative".to_string();
+            if sqrt_ops {
+                expect_panic(rec, P, "IBig::sqrt", "even root of a negative", guard(|| im.sqrt()), || case_m("sqrt()"));
+                rec.hit("negative-even-root-panic");
+            }
+            if cbrt_ops {
+                judge_root(rec, "IBig::cbrt", &ncls, x, 3, true, guard(|| (i_to_ref(&im.cbrt()), None)), &|| case_m("cbrt()"));
+            }
+            for &n in orders {
+                if n == 0 {
+                    expect_panic(rec, P, "IBig::nth_root", "zeroth root", guard(|| im.nth_root(0)), || case_m("nth_root(0)"));
+                } else if n % 2 == 0 {
+                    expect_panic(rec, P, "IBig::nth_root", "even root of a negative", guard(|| im.nth_root(n)), || case_m(&format!("nth_root({})", n)));
+                    rec.hit("negative-even-root-panic");
+                } else {
+                    judge_root(rec, "IBig::nth_root", &format!("{},{}", ncls, n_class(n)), x, n, true, guard(|| (i_to_ref(&im.nth_root(n)), None)), &|| case_m(&format!("nth_root({})", n)));
+                    rec.hit("negative-odd-root");
+                }
+            }
+        }
+    }
+    if x.is_zero() {
+        rec.hit("zero-radicand");
+    }
+    if !x.is_zero() && !x.is_one() {
+        rec.nontrivial();
+    }
+}
+
+const ORDERS: [usize; 9] = [1, 2, 3, 4, 5, 7, 64, 65, 200];
+
+fn sweeps_big_roots(ctx: &mut Ctx) {
+    // closed: every I3 magnitude, every order, both signs
+    let mags = i3_mags();
+    let nm = mags.len() as u64;
+    let mr = &mags;
+    ctx.sweep("big.roots.I3", nm, |i, rec| {
+        let x = &mr[i as usize];
+        let mut orders = vec![0usize];
+        orders.extend_from_slice(&ORDERS);
+        // orders at the "bit length <= n" shortcut boundary
+        let b = x.bits() as usize;
+        orders.extend_from_slice(&[b.saturating_sub(1).max(1), b.max(1), b + 1]);
+        check_roots(rec, x, &orders, true, true, true);
+        rec.sample(|| format!("sqrt/sqrt_rem/cbrt/cbrt_rem/nth_root(0,1,2,3,4,5,7,64,65,200,bits-1,bits,bits+1) of {} and of its negative", hexu(x)));
+    });
+    ctx.require_classes("big.roots.I3", &["zero-radicand", "zeroth-root-panic", "negative-even-root-panic", "negative-odd-root"]);
+
+    // constructed: x = r^n - 1, r^n, r^n + 1
+    let quick = ctx.quick();
+    let max_r_words = move |n: usize| -> usize {
+        match n {
+            0..=7 => if quick { 6 } else { 8 },
+            8..=65 => if quick { 2 } else { 3 },
+            _ => if quick { 1 } else { 2 },
+        }
+    };
+    let rl: Vec<usize> = ctx.pick((1..=6).collect(), (1..=8).collect());
+    let pats: Vec<&'static str> = ctx.pick(vec!["ones", "top1", "top1p1", "alt", "pow2m1_mid", "lcgA", "lcgSeed"], PATTERNS.to_vec());
+    let rs = shapes(&rl, &pats, ctx.seed);
+    let nr = rs.len() as u64;
+    ctx.bound("root_orders", serde_json::json!(ORDERS));
+    ctx.bound("constructed_root_max_words_by_order", serde_json::json!({"n<=7": max_r_words(7), "n=64,65": max_r_words(64), "n=200": max_r_words(200)}));
+    let rsr = &rs;
+    ctx.sweep("big.roots.constructed", nr * ORDERS.len() as u64 * 3, |i, rec| {
+        let [ri, ni, d] = unflatten(i, [nr, ORDERS.len() as u64, 3]);
+        let (r, n) = (&rsr[ri], ORDERS[ni]);
+        if r.len > max_r_words(n) {
+            rec.hit("pruned(root too long for this order)");
+            return;
+        }
+        let p: BigUint = Pow::pow(&r.v, n as u32);
+        let x = match d {
+            0 => p - 1u32,
+            1 => p,
+            _ => p + 1u32,
+        };
+        check_roots(rec, &x, &[n], n == 2, n == 3, true);
+        rec.hit(["perfect-power-minus-1", "perfect-power", "perfect-power-plus-1"][d]);
+        rec.hit(n_class(n));
+        rec.sample(|| format!("x = ({}w:{})^{} {:+}: nth_root({}) (+ sqrt/cbrt forms), UBig and IBig both signs", r.len, r.pat, n, d as i32 - 1, n));
+    });
+    ctx.require_classes("big.roots.constructed", &["perfect-power-minus-1", "perfect-power", "perfect-power-plus-1", "n=1", "n=2", "n=3", "n=4-7", "n>=64"]);
+
+    // every radicand length (odd and even word counts) x pattern, and squares of every length
+    let maxlen: usize = ctx.pick(40, 130);
+    let mut lens: Vec<usize> = (1..=maxlen).collect();
+    if !quick {
+        lens.extend_from_slice(&[200, 257, 400]);
+    }
+    let dpats: Vec<&'static str> = PATTERNS.to_vec();
+    let direct = shapes(&lens, &dpats, ctx.seed);
+    let sq_lens: Vec<usize> = (1..=ctx.pick(20, 65)).collect();
+    let sq_roots = shapes(&sq_lens, &pats, ctx.seed ^ 0x77);
+    let (nd, nq) = (direct.len() as u64, sq_roots.len() as u64);
+    ctx.bound("sqrt_radicand_lengths_words", serde_json::json!(format!("every length 1..={}{}", maxlen, if quick { "" } else { ", 200, 257, 400" })));
+    let (dr, qr) = (&direct, &sq_roots);
+    ctx.sweep("big.roots.lengths", nd + nq * 3, |i, rec| {
+        if i < nd {
+            let x = &dr[i as usize];
+            let small = x.len <= 24;
+            check_roots(rec, &x.v, if small { &[5] } else { &[] }, true, small, false);
+            // top word with 0 / 1 / 2 / 63 leading zeros: the normalisation shift of sqrt_rem_large
+            for sh in [1u32, 2, 63] {
+                check_roots(rec, &(&x.v >> sh), &[], true, false, false);
+            }
+            rec.hit(if x.len % 2 == 1 { "odd-length" } else { "even-length" });
+            rec.sample(|| format!("sqrt/sqrt_rem (cbrt, 5th root when <= 24 words) of {}w:{} and of it shifted right by 1, 2, 63 bits", x.len, x.pat));
+        } else {
+            let j = i - nd;
+            let r = &qr[(j / 3) as usize];
+            let p = &r.v * &r.v;
+            let x = match j % 3 {
+                0 => p - 1u32,
+                1 => p,
+                _ => p + 1u32,
+            };
+            check_roots(rec, &x, &[], true, false, false);
+            rec.hit("square-neighbourhood");
+            rec.sample(|| format!("sqrt/sqrt_rem of ({}w:{})^2 {:+}", r.len, r.pat, (j % 3) as i32 - 1));
+        }
+    });
+    ctx.require_classes("big.roots.lengths", &["odd-length", "even-length", "square-neighbourhood"]);
+}
+
+// ---------------------------------------------------------------------------------------------
+// ilog, remove
+
+fn base_class(b: &BigUint) -> &'static str {
+    if b.is_zero() {
+        "base=word"
+    } else if b.bits() <= 128 && b.trailing_zeros() == Some(b.bits() - 1) {
+        "base=2^k"
+    } else {
+        match word_len(b) {
+            0 | 1 => "base=word",
+            2 => "base=dword",
+            _ => "base=large",
+        }
+    }
+}
+
+fn check_ilog(rec: &mut Rec, x: &BigUint, b: &BigUint) {
+    let (ux, ub) = (ref_to_u(x), ref_to_u(b));
+    let case = || format!("{}.ilog({})", hexu(x), hexu(b));
+    let bc = base_class(b);
+    let same = |p: &Result<usize, String>, q: &Result<usize, String>| match (p, q) {
+        (Ok(a), Ok(b)) => a == b,
+        (Err(a), Err(b)) => panic_kind(a) == panic_kind(b),
+        _ => false,
+    };
+    let base = guard(|| ux.ilog(&ub));
+    let ip = IBig::from(ux.clone());
+    let im = -ip.clone();
+    if x.is_zero() || b.bits() < 2 {
+        let what = if b.bits() < 2 { "log base 0 or 1" } else { "log of 0" };
+        rec.hit(what);
+        let got_i = guard(|| ip.ilog(&ub));
+        if same(&got_i, &base) {
+            rec.step();
+        } else {
+            expect_panic(rec, P, &format!("IBig::ilog[{}]", bc), what, got_i, case);
+        }
+        expect_panic(rec, P, &format!("UBig::ilog[{}]", bc), what, base, case);
+        return;
+    }
+    let class = format!("{},x={}", bc, size_class(word_len(x)));
+    let judge = |rec: &mut Rec, site: &str, neg: bool, got: &Result<usize, String>| {
+        rec.step();
+        match got {
+            Ok(e) => {
+                if !is_floor_log(x, b, *e) {
+                    rec.fail(format!("{}|{}|wrong-value|{}", P, site, class), format!("{}{}", if neg { "-" } else { "" }, case()), e.to_string(), format!("{} (b^e <= |x| < b^(e+1))", floor_log(x, b)));
+                }
+            }
+            Err(p) => rec.fail(format!("{}|{}|panic|{};{}", P, site, class, panic_kind(p)), format!("{}{}", if neg { "-" } else { "" }, case()), format!("panic: {}", p), floor_log(x, b).to_string()),
+        }
+    };
+    judge(rec, "UBig::ilog", false, &base);
+    for (neg, got) in [(false, guard(|| ip.ilog(&ub))), (true, guard(|| im.ilog(&ub)))] {
+        if same(&got, &base) {
+            rec.step();
+            rec.hit("IBig-form-identical-to-UBig");
+        } else {
+            judge(rec, "IBig::ilog", neg, &got);
+        }
+    }
+    rec.hit(bc);
+    if x < b {
+        rec.hit("x<base");
+    }
+    if !x.is_one() {
+        rec.nontrivial();
+    }
+}
+
+fn check_remove(rec: &mut Rec, x: &BigUint, f: &BigUint) {
+    let case = || format!("{}.remove({})", hexu(x), hexu(f));
+    let fc = base_class(f);
+    let class = format!("{},x={}", fc.replace("base", "factor"), size_class(word_len(x)));
+    let (mut ux, uf) = (ref_to_u(x), ref_to_u(f));
+    let got = guard(|| {
+        let r = ux.remove(&uf);
+        (r, u_to_ref(&ux))
+    });
+    rec.step();
+    // definition: the largest k with f^k | x, and x / f^k; None (x untouched) for x = 0, f = 0, f = 1
+    let want: (Option<usize>, BigUint) = if x.is_zero() || f.bits() < 2 {
+        (None, x.clone())
+    } else {
+        let (mut k, mut c) = (0usize, x.clone());
+        loop {
+            let (q, r) = c.div_rem(f);
+            if !r.is_zero() {
+                break;
+            }
+            c = q;
+            k += 1;
+        }
+        (Some(k), c)
+    };
+    match got {
+        Ok((k, c)) => {
+            if k != want.0 {
+                rec.fail(format!("{}|UBig::remove|wrong-value|{}", P, class), case(), format!("{:?}, left {}", k, hexu(&c)), format!("{:?}, left {}", want.0, hexu(&want.1)));
+            } else if c != want.1 {
+                rec.fail(format!("{}|UBig::remove|wrong-cofactor|{}", P, class), case(), format!("{:?}, left {}", k, hexu(&c)), format!("{:?}, left {}", want.0, hexu(&want.1)));
+            }
+        }
+        Err(p) => rec.fail(format!("{}|UBig::remove|panic|{};{}", P, class, panic_kind(&p)), case(), format!("panic: {}", p), format!("{:?}", want.0)),
+    }
+    match want.0 {
+        None => rec.hit("remove->None"),
+        Some(0) => rec.hit("remove->Some(0)"),
+        Some(1..=3) => rec.hit("remove->Some(1..3)"),
+        Some(_) => rec.hit("remove->Some(>=4)"),
+    }
+    rec.hit(fc);
+    if x.bits() > 1 {
+        rec.nontrivial();
+    }
+}
+
+fn log_bases(seed: u64) -> Vec<BigUint> {
+    let mut v: Vec<BigUint> = [0u64, 1, 2, 3, 4, 5, 7, 10, 16, 36, 255, 256, 1000, 0xFFFF_FFFF, 0x1_0000_0000, 0x1_0000_0001, 1 << 63, 10_000_000_000_000_000_000, u64::MAX - 1, u64::MAX].iter().map(|&x| BigUint::from(x)).collect();
+    v.push(pow2(64));
+    v.push(pow2(64) + 1u32);
+    v.push(pow2(64) * 10u32);
+    v.push(pow2(127));
+    v.push(pow2(128) - 1u32);
+    v.push(pow2(128));
+    v.push(pow2(128) + 1u32);
+    v.push(pow2(130));
+    v.push(shape(3, "lcgA", seed));
+    v.push(shape(3, "ones", 0));
+    v.push(shape(5, "lcgB", seed));
+    v
+}
+
+fn sweeps_big_ilog_remove(ctx: &mut Ctx) {
+    let bases = log_bases(ctx.seed);
+    let mags = i3_mags();
+    let (nb, nm) = (bases.len() as u64, mags.len() as u64);
+    ctx.bound("ilog_bases", nb);
+    let (br, mr) = (&bases, &mags);
+    ctx.sweep("big.ilog.I3xbases", nm * nb, |i, rec| {
+        let (x, b) = (&mr[(i / nb) as usize], &br[(i % nb) as usize]);
+        check_ilog(rec, x, b);
+        rec.sample(|| format!("{}.ilog({}) as UBig, IBig, -IBig", hexu(x), hexu(b)));
+    });
+    ctx.require_classes("big.ilog.I3xbases", &["log of 0", "log base 0 or 1", "base=2^k", "base=word", "base=dword", "base=large", "x<base"]);
+
+    // b^e - 1, b^e, b^e + 1
+    let cap_bits: u64 = ctx.pick(64 * 70, 64 * 300);
+    let emax: usize = ctx.pick(140, 400);
+    ctx.bound("ilog_power_bits_cap", cap_bits);
+    ctx.bound("ilog_max_exponent", emax as u64);
+    let mut grid: Vec<(usize, usize)> = vec![];
+    for (bi, b) in bases.iter().enumerate() {
+        if b.bits() < 2 {
+            continue;
+        }
+        let mut e = 0usize;
+        while e <= emax && (b.bits() - 1) * e as u64 <= cap_bits {
+            grid.push((bi, e));
+            e += 1;
+        }
+    }
+    let ng = grid.len() as u64;
+    let gr = &grid;
+    ctx.sweep("big.ilog.powers", ng, |i, rec| {
+        let (bi, e) = gr[i as usize];
+        let b = &br[bi];
+        let p: BigUint = Pow::pow(b, e as u32);
+        for x in [&p - 1u32, p.clone(), &p + 1u32, &p * b - 1u32, (&p * b) >> 1] {
+            check_ilog(rec, &x, b);
+        }
+        rec.hit(if e >= 20 { "exponent>=20" } else { "exponent<20" });
+        rec.sample(|| format!("ilog base {} of b^{}-1, b^{}, b^{}+1, b^{}-1, b^{}/2", hexu(b), e, e, e, e + 1, e + 1));
+    });
+    ctx.require_classes("big.ilog.powers", &["exponent>=20", "exponent<20", "base=2^k", "base=word", "base=dword", "base=large", "log of 0"]);
+
+    // remove: x = f^k * c
+    let factors: Vec<BigUint> = {
+        let mut v: Vec<BigUint> = [0u64, 1, 2, 3, 4, 6, 10, 12, 255, 1 << 32, u64::MAX].iter().map(|&x| BigUint::from(x)).collect();
+        v.push(pow2(64));
+        v.push(pow2(64) + 1u32);
+        v.push(pow2(70) * 3u32);
+        v.push(pow2(130));
+        v.push(shape(3, "lcgA", ctx.seed) | BigUint::one());
+        v.push(shape(3, "top1", 0) * 6u32);
+        v
+    };
+    let ks: Vec<usize> = vec![0, 1, 2, 3, 4, 5, 6, 7, 8, 9, 14, 15, 16, 17, 30, 31, 32, 33, 63, 64, 65, 100];
+    let cof: Vec<BigUint> = vec![BigUint::zero(), BigUint::one(), BigUint::from(5u32), BigUint::from(7u32 * 9 * 4), BigUint::from(u64::MAX - 58), pow2(64) + 13u32, shape(3, "lcgB", ctx.seed), shape(4, "ones", 0), pow2(200)];
+    let rcap: u64 = ctx.pick(64 * 80, 64 * 400);
+    ctx.bound("remove_power_bits_cap", rcap);
+    let (nf, nk, nc) = (factors.len() as u64, ks.len() as u64, cof.len() as u64);
+    let (fr, kr, cr) = (&factors, &ks, &cof);
+    ctx.sweep("big.remove", nf * nk * nc, |i, rec| {
+        let [fi, ki, ci] = unflatten(i, [nf, nk, nc]);
+        let (f, k, c) = (&fr[fi], kr[ki], &cr[ci]);
+        if f.bits() * k as u64 > rcap {
+            rec.hit("pruned(power too large)");
+            return;
+        }
+        let x: BigUint = Pow::pow(f, k as u32) * c;
+        check_remove(rec, &x, f);
+        rec.sample(|| format!("({}^{} * {}).remove({})", hexu(f), k, hexu(c), hexu(f)));
+    });
+    ctx.require_classes("big.remove", &["remove->None", "remove->Some(0)", "remove->Some(1..3)", "remove->Some(>=4)", "base=2^k", "base=word", "base=dword", "base=large"]);
+}
+
+// ---------------------------------------------------------------------------------------------
+// log2_bounds of UBig / IBig / FBig / RBig
+
+fn same_bounds(a: &Result<(f32, f32), String>, b: &Result<(f32, f32), String>) -> bool {
+    match (a, b) {
+        (Ok(x), Ok(y)) => x.0.to_bits() == y.0.to_bits() && x.1.to_bits() == y.1.to_bits(),
+        (Err(x), Err(y)) => panic_kind(x) == panic_kind(y),
+        _ => false,
+    }
+}
+
+fn int_log2(rec: &mut Rec, tl: &mut Tl, x: &BigUint) {
+    let ux = ref_to_u(x);
+    let ip = IBig::from(ux.clone());
+    let im = -ip.clone();
+    let case = || format!("{}.log2_bounds()", hexu(x));
+    let base = guard(|| ux.log2_bounds());
+    if x.is_zero() {
+        judge_log2_zero(rec, tl, "UBig::log2_bounds", base, &case);
+        judge_log2_zero(rec, tl, "IBig::log2_bounds", guard(|| ip.log2_bounds()), &case);
+        return;
+    }
+    let pow2 = x.trailing_zeros() == Some(x.bits() - 1);
+    let class = format!("{}{}", size_class(word_len(x)), if pow2 { ",pow2" } else { "" });
+    let l64 = log2_f64_big(x);
+    for (site, got) in [("IBig::log2_bounds", guard(|| ip.log2_bounds())), ("IBig::log2_bounds", guard(|| im.log2_bounds()))] {
+        if same_bounds(&got, &base) {
+            rec.step();
+            rec.hit("IBig-form-identical-to-UBig");
+        } else {
+            judge_log2(rec, tl, site, &class, got, l64, 0.0, || log2_iv_u(x), &case);
+        }
+    }
+    let b = judge_log2(rec, tl, "UBig::log2_bounds", &class, base, l64, 0.0, || log2_iv_u(x), &case);
+    judge_est(rec, tl, "UBig::log2_est", &class, guard(|| ux.log2_est()), b, &case);
+    judge_est(rec, tl, "IBig::log2_est", &class, guard(|| im.log2_est()), b, &case);
+    rec.hit(if word_len(x) <= 2 { "inline(<=2 words)" } else { "heap(>=3 words)" });
+    if !x.is_one() {
+        rec.nontrivial();
+    }
+}
+
+fn float_log2<const B: dashu_int::Word>(rec: &mut Rec, tl: &mut Tl, s: &BigInt, e: isize) {
+    use dashu_float::{round::mode::Zero as RZero, FBig, Repr};
+    let case = || format!("Repr::<{}>::new({}, {}).log2_bounds()", B, hex(s), e);
+    let site = format!("Repr<{}>::log2_bounds", B);
+    let fsite = format!("FBig<{}>::log2_bounds", B);
+    let repr = match guard(|| Repr::<B>::new(ref_to_i(s), e)) {
+        Ok(r) => r,
+        Err(p) => {
+            rec.fail(format!("{}|Repr<{}>::new|panic|{}", P, B, panic_kind(&p)), case(), p, "a float");
+            return;
+        }
+    };
+    let base = guard(|| repr.log2_bounds());
+    let fb = guard(|| FBig::<RZero, B>::from_parts(ref_to_i(s), e));
+    if s.is_zero() {
+        judge_log2_zero(rec, tl, &site, base, &case);
+        return;
+    }
+    let m = s.magnitude();
+    let lb64 = (B as f64).log2();
+    let (ls, le) = (log2_f64_big(m), e as f64 * lb64);
+    let l64 = ls + le;
+    let class = format!("{},{}", if e < 0 { "e<0" } else if e == 0 { "e=0" } else { "e>0" }, if l64.abs() < 4.0 { "abs(log2)<4" } else { "abs(log2)>=4" });
+    let iv = || log2_iv_float(m, B as u64, e as i128);
+    if let Ok(f) = &fb {
+        let got = guard(|| f.log2_bounds());
+        if same_bounds(&got, &base) {
+            rec.step();
+            rec.hit("FBig-form-identical-to-Repr");
+        } else {
+            judge_log2(rec, tl, &fsite, &class, got, l64, ls.abs().max(le.abs()), iv, &case);
+        }
+    }
+    let b = judge_log2(rec, tl, &site, &class, base, l64, ls.abs().max(le.abs()), iv, &case);
+    judge_est(rec, tl, &format!("Repr<{}>::log2_est", B), &class, guard(|| repr.log2_est()), b, &case);
+    rec.hit(if e < 0 { "exponent<0" } else { "exponent>=0" });
+    if l64.abs() < 4.0 {
+        rec.hit("value-near-1(cancellation)");
+    }
+    rec.nontrivial();
+}
+
+fn ratio_log2(rec: &mut Rec, tl: &mut Tl, n: &BigInt, d: &BigUint) {
+    use dashu_ratio::{RBig, Relaxed};
+    let case = || format!("({} / {}).log2_bounds()", hex(n), hexu(d));
+    let r = guard(|| RBig::from_parts(ref_to_i(n), ref_to_u(d)));
+    let x = guard(|| Relaxed::from_parts(ref_to_i(n), ref_to_u(d)));
+    let (r, x) = match (r, x) {
+        (Ok(r), Ok(x)) => (r, x),
+        (Err(p), _) | (_, Err(p)) => {
+            rec.fail(format!("{}|RBig::from_parts|panic|{}", P, panic_kind(&p)), case(), p, "a rational");
+            return;
+        }
+    };
+    if n.is_zero() {
+        judge_log2_zero(rec, tl, "RBig::log2_bounds", guard(|| r.log2_bounds()), &case);
+        judge_log2_zero(rec, tl, "Relaxed::log2_bounds", guard(|| x.log2_bounds()), &case);
+        return;
+    }
+    let (ln, ld) = (log2_f64_big(n.magnitude()), log2_f64_big(d));
+    let l64 = ln - ld;
+    let class = if l64.abs() < 1.0 { "abs(log2)<1" } else { "abs(log2)>=1" };
+    let iv = || log2_iv_q(n.magnitude(), d);
+    let scale = ln.abs().max(ld.abs());
+    let got_r = guard(|| r.log2_bounds());
+    let got_x = guard(|| x.log2_bounds());
+    let identical = same_bounds(&got_r, &got_x);
+    let br = judge_log2(rec, tl, "RBig::log2_bounds", class, got_r, l64, scale, iv, &case);
+    let bx = if identical {
+        rec.step();
+        rec.hit("Relaxed-identical-to-RBig");
+        br
+    } else {
+        rec.hit("Relaxed-differs-from-RBig(unreduced parts)");
+        judge_log2(rec, tl, "Relaxed::log2_bounds", class, got_x, l64, scale, iv, &case)
+    };
+    judge_est(rec, tl, "RBig::log2_est", class, guard(|| r.log2_est()), br, &case);
+    judge_est(rec, tl, "Relaxed::log2_est", class, guard(|| x.log2_est()), bx, &case);
+    if l64.abs() < 1.0 {
+        rec.hit("value-near-1(cancellation)");
+    }
+    rec.hit(if n.sign() == NSign::Minus { "negative" } else { "positive" });
+    rec.nontrivial();
+}
+
+fn sweeps_big_log2(ctx: &mut Ctx) {
+    // integers
+    let mut ints: Vec<BigUint> = i3_mags();
+    let mut ks: Vec<u64> = (0..=260).collect();
+    ks.extend_from_slice(&[1000, 4096, 65536, 1 << 20]);
+    if !ctx.quick() {
+        ks.push((1 << 24) + 1);
+    }
+    for &k in &ks {
+        ints.push(pow2(k));
+        ints.push(pow2(k) + 1u32);
+        if k >= 2 {
+            ints.push(pow2(k) - 1u32);
+        }
+    }
+    for sh in shapes(&[1, 2, 3, 4, 5, 8, 40, 300], &PATTERNS, ctx.seed) {
+        ints.push(sh.v);
+    }
+    let ni = ints.len() as u64;
+    ctx.bound("log2_integer_values", ni);
+    let ir = &ints;
+    ctx.sweep("big.log2.int", ni, |i, rec| {
+        let tl = &mut Tl::default();
+        int_log2(rec, tl, &ir[i as usize]);
+        tl.flush(rec);
+        rec.sample(|| format!("log2_bounds/log2_est of {} as UBig, IBig, -IBig", hexu(&ir[i as usize])));
+    });
+    ctx.require_classes("big.log2.int", &["inline(<=2 words)", "heap(>=3 words)", "zero->-inf", "bounds-coincide(exact)", "decided-by-f64", "decided-by-enclosure"]);
+    no_undecided(ctx, "big.log2.int");
+
+    // floats: closed small universes per base + shaped significands with large exponents
+    let (s2, e2, s10, e10, s3, e3) = if ctx.quick() { (63i64, 40isize, 300i64, 12isize, 80i64, 8isize) } else { (255, 70, 2000, 25, 243, 20) };
+    ctx.bound("float_universe", serde_json::json!({"base2": [s2, e2], "base10": [s10, e10], "base3,16": [s3, e3]}));
+    let n2 = (2 * s2 + 1) as u64 * (2 * e2 + 1) as u64;
+    let n10 = (2 * s10 + 1) as u64 * (2 * e10 + 1) as u64;
+    let n3 = (2 * s3 + 1) as u64 * (2 * e3 + 1) as u64;
+    let bigs: Vec<BigUint> = shapes(&[1, 2, 3, 5], &["ones", "top1", "top1p1", "alt", "lcgA", "lcgSeed"], ctx.seed).into_iter().map(|s| s.v).collect();
+    let bexp: [isize; 15] = [-(1 << 40), -1_000_000, -1000, -200, -65, -20, -1, 0, 1, 19, 64, 200, 1000, 1_000_000, 1 << 40];
+    let nbg = bigs.len() as u64 * bexp.len() as u64 * 2;
+    let bgr = &bigs;
+    ctx.sweep("big.log2.float", n2 + n10 + 2 * n3 + 4 * nbg, |i, rec| {
+        let tl = &mut Tl::default();
+        let small = |j: u64, smax: i64, emax: isize| -> (BigInt, isize) {
+            let ne = (2 * emax + 1) as u64;
+            (BigInt::from((j / ne) as i64 - smax), (j % ne) as isize - emax)
+        };
+        if i < n2 {
+            let (s, e) = small(i, s2, e2);
+            float_log2::<2>(rec, tl, &s, e);
+        } else if i < n2 + n10 {
+            let (s, e) = small(i - n2, s10, e10);
+            float_log2::<10>(rec, tl, &s, e);
+        } else if i < n2 + n10 + n3 {
+            let (s, e) = small(i - n2 - n10, s3, e3);
+            float_log2::<3>(rec, tl, &s, e);
+        } else if i < n2 + n10 + 2 * n3 {
+            let (s, e) = small(i - n2 - n10 - n3, s3, e3);
+            float_log2::<16>(rec, tl, &s, e);
+        } else {
+            let j = i - n2 - n10 - 2 * n3;
+            let (base, j) = (j / nbg, j % nbg);
+            let [si, ei, sg] = unflatten(j, [bgr.len() as u64, bexp.len() as u64, 2]);
+            let s = if sg == 0 { BigInt::from(bgr[si].clone()) } else { -BigInt::from(bgr[si].clone()) };
+            match base {
+                0 => float_log2::<2>(rec, tl, &s, bexp[ei]),
+                1 => float_log2::<10>(rec, tl, &s, bexp[ei]),
+                2 => float_log2::<3>(rec, tl, &s, bexp[ei]),
+                _ => float_log2::<16>(rec, tl, &s, bexp[ei]),
+            }
+            rec.hit("multiword-significand");
+        }
+        tl.flush(rec);
+        rec.sample(|| format!("float log2_bounds case #{}", i));
+    });
+    ctx.require_classes("big.log2.float", &["exponent<0", "exponent>=0", "value-near-1(cancellation)", "multiword-significand", "zero->-inf", "decided-by-f64"]);
+    no_undecided(ctx, "big.log2.float");
+
+    // rationals
+    let (nn, dd): (i64, u64) = ctx.pick((300, 100), (1000, 300));
+    ctx.bound("rational_universe", serde_json::json!({"|n|<=": nn, "d<=": dd}));
+    let nq = (2 * nn + 1) as u64 * dd;
+    // simplest first, so that the first counterexample is the smallest
+    let mut parts: Vec<BigUint> = [3u32, 5, 7, 10, 255, 1000].iter().map(|&x| BigUint::from(x)).collect();
+    for k in [1u64, 23, 24, 25, 63, 64, 65, 127, 128, 129, 200] {
+        parts.extend_from_slice(&[pow2(k), pow2(k) + 1u32, pow2(k) - 1u32]);
+    }
+    parts.extend(shapes(&[1, 2, 3, 5, 40], &["ones", "top1", "top1p1", "alt", "lcgA", "lcgSeed"], ctx.seed).into_iter().map(|s| s.v));
+    let np = parts.len() as u64;
+    let pr = &parts;
+    ctx.sweep("big.log2.ratio", nq + np * np, |i, rec| {
+        let tl = &mut Tl::default();
+        if i < nq {
+            let (n, d) = ((i / dd) as i64 - nn, i % dd + 1);
+            ratio_log2(rec, tl, &BigInt::from(n), &BigUint::from(d));
+        } else {
+            let j = i - nq;
+            let (n, d) = (&pr[(j / np) as usize], &pr[(j % np) as usize]);
+            let n = if j % 5 == 0 { -BigInt::from(n.clone()) } else { BigInt::from(n.clone()) };
+            ratio_log2(rec, tl, &n, d);
+            rec.hit("large-parts");
+        }
+        tl.flush(rec);
+        rec.sample(|| format!("rational log2_bounds case #{}", i));
+    });
+    ctx.require_classes("big.log2.ratio", &["negative", "positive", "value-near-1(cancellation)", "large-parts", "zero->-inf", "decided-by-f64"]);
+    no_undecided(ctx, "big.log2.ratio");
+}
+
 
 pub fn run(ctx: &mut Ctx) {
-    ctx.machinery("check C12 is not built yet");
+    ctx.rule = "primitives: sqrt/cbrt/sqrt_rem/cbrt_rem on every u8 and u16 (also zero-extended to u32/u64/u128), on r^2-1,r^2,r^2+1 (r^3..) for every root r below the stated bounds in u32/u64 and derived u128 radicands, on value grids (2^k, 2^k+-1, MAX.., Fibonacci, LCG), and on every u32 (thorough); gcd/gcd_ext on all u8 pairs in every unsigned type, boundary grid x all u16, pattern grids squared for u32/u64/usize/u128; log2_bounds/log2_est on every u8/u16/i8/i16, on f32 bit patterns (all in thorough, low-mantissa-byte in {00,FF} grid plus all |bits| < 2^16 in quick), and on u32..u128/i32..i128/usize/f64 grids. big: gcd/gcd_ext in all UBig/IBig/mixed and ownership forms on signed I3 x I3 and on shape pairs x common factors, Fibonacci neighbours, operands with trailing zero words, >=300-word operands (double-word Lehmer guess); sqrt/sqrt_rem/cbrt/cbrt_rem/nth_root on all I3 magnitudes, on r^n-1,r^n,r^n+1 for shaped r and n in {1,2,3,4,5,7,64,65,200}, on every radicand length 1..L words x patterns, IBig negatives, zero radicand, zeroth root; ilog on I3 x bases and on b^e-1,b^e,b^e+1; remove on f^k*c; log2_bounds of UBig/IBig/FBig(bases 2,10,3,16)/RBig/Relaxed on closed small universes and shaped large operands. non-trivial = operand magnitude > 1".into();
+    ctx.assume("num_bigint multiplication/comparison/pow and num_integer gcd are correct (cross-checked against u128 Euclid / checked u128 powers at start)");
+    ctx.assume("f64 log2 of the platform libm is accurate to 2^-40 relative to max(1,|log2 x|); it only decides cases whose margin exceeds that, everything closer is decided by the BigInt enclosure (h12::log2_iv_u, self-checked at start against 96-bit constants from mpmath and against f64 log2 on 1..=2048 and on 2^k, 2^k+-1, 3*2^k+1 up to k = 5000)");
+    ctx.assume("log2_bounds on NaN, and whether log2_bounds(0) returns (-inf,-inf) or panics, is not specified consistently by the docs: counted as unspecified, not judged; precision of the bounds is not judged (docs: 'not guaranteed')");
+    ctx.assume("this run covers the build configuration named in build_config; the table-driven no_std estimator is only reached when dv is built with --no-default-features");
+    if !self_check(ctx) {
+        return;
+    }
+    sweeps_prim_roots(ctx);
+    sweeps_prim_gcd(ctx);
+    sweeps_prim_log2(ctx);
+    sweeps_big_gcd(ctx);
+    sweeps_big_roots(ctx);
+    sweeps_big_ilog_remove(ctx);
+    sweeps_big_log2(ctx);
 }
